@@ -55,6 +55,17 @@ Example spec_model_nonvacuous :
   spec sc (model sc) = true.
 Proof. vm_compute. reflexivity. Qed.
 
+(* an expired deadline is the caller's own context dying: same clauses *)
+Example spec_model_expire_nonvacuous :
+  let sc := Script false [MArrive xtA; MArrive xtA; MArrive xtA; MExpire 0; MExpire 2; MRelease xgood1] in
+  spec sc (model sc) = true /\
+  spec sc (OScript [mkSnap 1 false [SPending] []; mkSnap 1 false [SPending; SPending] [];
+                    mkSnap 1 false [SPending; SPending; SPending] [];
+                    mkSnap 1 false [SErr ECtx; SErr EFetch; SErr EFetch] [];
+                    mkSnap 1 false [SErr ECtx; SErr EFetch; SErr EFetch] [];
+                    mkSnap 1 false [SErr ECtx; SErr EFetch; SErr EFetch] []]) = false.
+Proof. vm_compute. auto. Qed.
+
 (* and rejects what the unrepaired code did (F13): B fails when A is cancelled *)
 Example spec_rejects_F13 :
   spec (Script false [MArrive xtA; MArrive xtA; MCancel 0; MRelease xgood1])
